@@ -252,6 +252,32 @@ func rewrite(p *packages.Package, f *ast.File, mode string) int {
 				c.Replace(&ast.SwitchStmt{Body: &ast.BlockStmt{List: clauses}})
 				n++
 				return false
+			case "negswitch":
+				// if c {A} [else {B}]  =>  switch { case !(c): B  default: A }   (go/ssa keeps the negation as an instruction)
+				if x.Init != nil || hasBareBreak(x.Body) {
+					return true
+				}
+				if _, inBlock := c.Parent().(*ast.BlockStmt); !inBlock {
+					return true
+				}
+				var elseBody []ast.Stmt
+				switch e := x.Else.(type) {
+				case nil:
+				case *ast.BlockStmt:
+					if hasBareBreak(e) {
+						return true
+					}
+					elseBody = e.List
+				default:
+					return true
+				}
+				neg := &ast.UnaryExpr{Op: token.NOT, X: &ast.ParenExpr{X: x.Cond}}
+				c.Replace(&ast.SwitchStmt{Body: &ast.BlockStmt{List: []ast.Stmt{
+					&ast.CaseClause{List: []ast.Expr{neg}, Body: elseBody},
+					&ast.CaseClause{Body: x.Body.List},
+				}}})
+				n++
+				return true
 			case "earlyelse", "elseflat":
 				blk, inBlock := c.Parent().(*ast.BlockStmt)
 				if !inBlock || x.Init != nil || len(x.Body.List) == 0 {
